@@ -263,6 +263,7 @@ def oracle_session(ctx, Packetizer, Message, suites, comp, nmsgs, maxlen, switch
         return ("activate:" + exc_site(e), case, repr(e))
     sent, pending = [], []
     b = L.REF_CIPHER.get(c, (0, 0, 0, 16))[3]
+    case["banner"] = banner = rng.random() < 0.3
     for i in range(nmsgs):
         if i in switch_at:
             # both ends switch at the same message boundary (everything sent so far is read first)
@@ -306,6 +307,20 @@ def oracle_session(ctx, Packetizer, Message, suites, comp, nmsgs, maxlen, switch
 
 def drain(ctx, pr, in_sock, out_sock, pending, case):
     rng = ctx.rng
+    if case.get("banner"):
+        # the peer's banner line and the first packets arrive together: the real readline() over-reads into
+        # __remainder, from which read_all has to serve the first packet(s)
+        case["banner"] = False
+        in_sock.feed(b"SSH-2.0-peer_%d\r\n" % rng.randrange(10 ** rng.randrange(1, 30)))
+        in_sock.feed(out_sock.take())
+        in_sock.sched = []
+        try:
+            line = pr.readline(5)
+        except Exception as e:
+            return ("readline:" + exc_site(e), case, repr(e))
+        if not line.startswith("SSH-2.0-peer_"):
+            return ("readline-differs", case, repr(line))
+        ctx.dist("oracle:banner-remainder")
     in_sock.feed(out_sock.take())
     for payload, seq in pending:
         in_sock.sched = [rng.choice([0, 1, 2, 3, 7, 16, 100, 1000, rng.randrange(1, 5000)]) for _ in range(rng.randrange(0, 10))]
@@ -392,6 +407,14 @@ def run(ctx):
         if j < 2:
             ctx.sample({"oracle-session": {"suites": ss, "compression": comp, "messages": nm, "maxlen": maxlen, "switches": sw}})
     ctx.extra["suites_x_compression"] = len(suites) * len(comps)
+
+
+def replay(data):
+    """./check C01 --replay replays/C01-….json : payload bytes are not stored, so the recorded seed/tier is re-run"""
+    from pv import core
+
+    print("re-running C01 with seed %s tier %s" % (data.get("seed"), data.get("tier")))
+    return core.main_run("C01", data.get("tier", "quick"), int(data.get("seed", 0)))
 
 
 META = {
